@@ -30,6 +30,9 @@ pub struct KnownFinding {
     pub id: String,
     pub property: String,
     pub tags: Vec<String>,
+    /// other properties whose checks may meet the same finding
+    #[serde(default)]
+    pub also: Vec<String>,
     pub what: String,
     pub witness: Value,
     #[serde(default)]
@@ -85,7 +88,7 @@ impl CheckContext {
         }
         if !failure.concerns(&self.property) && std::env::var("VERIF_REPORT_ANY").is_err() { return Relevance::Other; }
         for finding in &self.known {
-            if finding.status == "open" && finding.property == self.property && failure.property == self.property && finding.tags.contains(&failure.tag) {
+            if finding.status == "open" && (finding.property == self.property || finding.also.contains(&self.property)) && finding.tags.contains(&failure.tag) {
                 return Relevance::Known(finding.id.clone());
             }
         }
